@@ -286,8 +286,10 @@ func runC12Lifecycle(s *core.Sim, w *SW, first, top uint64, hist *[]string) {
 		}
 	}
 	s.Probe("waiters-across-" + event)
-	if err := w.Append(w.Ch.Range(top, target)...); err != nil {
-		s.Violate("append-error", nil, "Append(%d..%d): %v", top, target, err)
+	// (the awaited height is the last one of the batch, or somewhere inside it)
+	upTo := target + uint64(core.Pick(s.Tape, "batch-beyond-target", []int{0, 0, 1, 3}))
+	if err := w.Append(w.Ch.Range(top, upTo)...); err != nil {
+		s.Violate("append-error", nil, "Append(%d..%d): %v", top, upTo, err)
 		return
 	}
 	if err := w.Sync(); err != nil {
@@ -311,7 +313,7 @@ func runC12Lifecycle(s *core.Sim, w *SW, first, top uint64, hist *[]string) {
 			}
 		}
 		if blocked || wt.err != nil || !simhdr.Equal(wt.got, w.Ch.At(target)) {
-			s.Violate("lost-wakeup", map[string]string{"across": event}, "reader%d was waiting for height %d when the store was %s; %d..%d were appended and synced afterwards, but the reader: blocked=%v got=%v err=%v [%s]", i, target, map[string]string{"wipe": "emptied by a whole-chain deletion", "restart": "stopped and started again"}[event], top, target, blocked, wt.got, wt.err, w.cfg())
+			s.Violate("lost-wakeup", map[string]string{"across": event}, "reader%d was waiting for height %d when the store was %s; %d..%d were appended and synced afterwards, but the reader: blocked=%v got=%v err=%v [%s]", i, target, map[string]string{"wipe": "emptied by a whole-chain deletion", "restart": "stopped and started again"}[event], top, upTo, blocked, wt.got, wt.err, w.cfg())
 			return
 		}
 	}
